@@ -563,3 +563,97 @@ def r12(rr, repo):
     if ss is not None:
         ipc = any(isinstance(c, ast.Call) and U(c.func).endswith('.add') and 'ipc' in U(c.func) for c in ast.walk(ss))
         rr.ob('the ipc names of explicit sources are reserved as well', ipc, mod, ss, key='reserve-sources-ipc')
+
+
+@rule('C12.R13', "the decisions of the wiring loops have the sense the property needs: a duplicate id is refused exactly when the id is already registered; a source is rewritten exactly when it is NOT a real address, "
+                 "names a filter of the list, that filter can be a source and is not the consumer itself - with the producer's existing address when it has one and a freshly allocated one otherwise; the "
+                 "ports of explicit tcp sources and outputs are the ones that are reserved; a number given as id / sources / outputs is the thing that is turned into text")
+def r13(rr, repo):
+    cmod, pf = repo.find(f'{CLI}::parse_filters')
+    q.expect_locals(cmod, pf, ['outputs', 'output', 'sources', 'source', 'max_port', 'id', 'config_by_id', 'source_by_id', 'id_config', 'non_mq_output_ids', 'config'])
+    def has(g, text, pol):
+        t_ = text.replace(' ', '')
+        return any(p == pol and t_ in t.replace(' ', '') for t, p in g)
+    # 1. duplicate ids
+    dup = [n for n in walk_scope(pf) if isinstance(n, ast.Raise) and 'duplicate id' in U(n)]
+    rr.floor('refusals of a duplicate id', len(dup), 1, cmod, pf)
+    for n in dup:
+        g = q.effective_guards(n, pf)
+        rr.ob('a duplicate id is refused when - and only when - the id is already registered', has(g, 'config.id in config_by_id', True) and not has(g, 'config.id in config_by_id', False), cmod, n, witness=str(g)[:160], key='dup-sense')
+    # 2. rewrites
+    rewrites = [n for n in walk_scope(pf) if isinstance(n, ast.Assign) and any(isinstance(t, ast.Subscript) and U(t.value) == 'sources' for t in n.targets)]
+    rr.floor('source rewrite sites', len(rewrites), 2, cmod, pf)
+    reuse = alloc = 0
+    for n in rewrites:
+        g = q.effective_guards(n, pf)
+        w = str(g)[:260]
+        rr.ob('a source is rewritten only if it is not a real address already', has(g, 'is_mq_addr(source)', False), cmod, n, witness=w, key='rewrite-not-address')
+        rr.ob('... and names a filter of the list (the id lookup succeeded)', has(g, 'config_by_id.get(', True), cmod, n, witness=w, key='rewrite-known-id')
+        rr.ob('... whose outputs can be subscribed to', has(g, 'id in non_mq_output_ids', False), cmod, n, witness=w, key='rewrite-mq-producer')
+        rr.ob('... and which is not the consumer itself', has(g, 'id == config.id', False), cmod, n, witness=w, key='rewrite-not-self')
+        if has(g, 'source_by_id.get(id)', True):
+            reuse += 1
+        elif has(g, 'source_by_id.get(id)', False):
+            alloc += 1
+            rr.ob('a new output is allocated only for a producer that has none', has(g, 'id_config.outputs', False), cmod, n, witness=w, key='alloc-only-without-outputs')
+    rr.ob("one rewrite re-uses the producer's existing address (when it has one), the other allocates (when it has none)", reuse == 1 and alloc == 1, cmod, rewrites[0] if rewrites else pf,
+          witness=f'reuse sites: {reuse}, allocation sites: {alloc}', key='rewrite-branches')
+    # 3. reservations
+    scans = [n for n in walk_scope(pf) if isinstance(n, ast.Assign) and U(n.targets[0]) == 'max_port' and U(n.value).startswith('max(')]
+    rr.floor('reservations of user-given ports', len(scans), 2, cmod, pf)
+    for n in scans:
+        g = q.effective_guards(n, pf)
+        var = 'source' if 'source' in U(n.value) else 'output'
+        rr.ob(f'the port of a user-given tcp {var} is reserved when the {var} IS a tcp address', has(g, f"{var}.startswith('tcp://')", True), cmod, n, witness=str(g)[:200], key=f'reserve-sense|{var}')
+    # 4. numbers become text
+    convs = [n for n in walk_scope(pf) if isinstance(n, ast.Assign) and isinstance(n.value, ast.Call) and U(n.value.func) == 'str' and isinstance(n.targets[0], ast.Subscript) and U(n.targets[0].value) == 'config']
+    for n in convs:
+        g = q.effective_guards(n, pf)
+        rr.ob('what is turned into text is a number (and not a switch)', any(p and 'isinstance(' in t and 'int' in t and 'float' in t and 'bool' in t for t, p in g), cmod, n, witness=str(g)[:200], key='ids-text-sense')
+    # 5. explicit outputs become sources
+    conv = [n for n in walk_scope(pf) if isinstance(n, ast.Assign) and U(n.targets[0]) == 'output' and isinstance(n.value, ast.JoinedStr) and U(n.value).startswith("f'tcp://")]
+    for n in conv:
+        g = q.effective_guards(n, pf)
+        rr.ob("the bind address of an explicit output is converted when it is a tcp address", has(g, "output.startswith('tcp://')", True), cmod, n, witness=str(g)[:160], key='conv-sense')
+    stores = [n for n in walk_scope(pf) if isinstance(n, ast.Assign) and any(isinstance(t, ast.Subscript) and U(t.value) == 'source_by_id' and U(t.slice) == 'config.id' for t in n.targets)]
+    rr.ob("the (converted) first explicit output of a filter is recorded as the address its consumers are given", len(stores) == 1 and U(stores[0].value) == 'output' and not [1 for t, p in q.effective_guards(stores[0], pf) if 'tcp' in t], cmod,
+          stores[0] if stores else pf, witness=U(stores[0])[:80] if stores else 'no store', key='default-source-recorded')
+
+
+@rule('C12.R14', "more decision senses of the wiring: an explicitly empty --sources / --outputs is the only thing that is deleted from a configuration; the scan of a filter's explicit outputs runs when it HAS outputs and "
+                 "all of them are message-queue addresses; the rewrite loop runs for a filter that HAS sources, and what it rewrote is written back into the configuration")
+def r14(rr, repo):
+    cmod, pf = repo.find(f'{CLI}::parse_filters')
+    q.expect_locals(cmod, pf, ['outputs', 'output', 'sources', 'source', 'max_port', 'config'])
+    def has(g, text, pol):
+        t_ = text.replace(' ', '')
+        return any(p == pol and t_ in t.replace(' ', '') for t, p in g)
+    dels = [n for n in walk_scope(pf) if isinstance(n, ast.Delete) and any(U(t) in ('config.sources', 'config.outputs') for t in n.targets)]
+    rr.floor('deletions of an empty sources / outputs entry', len(dels), 2, cmod, pf)
+    for n in dels:
+        key = U(n.targets[0]).split('.')[-1]
+        g = q.effective_guards(n, pf)
+        conj = []
+        for t, p in g:
+            if p and ' and ' in t:
+                conj += [(x.strip().strip('()'), True) for x in t.split(' and ')]
+            else:
+                conj.append((t, p))
+        conj = [((t[4:].strip().strip('()'), not p) if t.startswith('not ') else (t, p)) for t, p in conj]
+        ok = has(conj, f"'{key}' in config", True) and has(conj, f'config.{key}', False) and not any(p and t.replace(' ', '') == f'config.{key}' for t, p in conj)
+        rr.ob(f"config.{key} is deleted only when the key is present AND empty (what the user wrote is otherwise kept)", ok, cmod, n, witness=str(g)[:160], key=f'del-sense|{key}')
+    oscans = [n for n in walk_scope(pf) if isinstance(n, ast.Assign) and U(n.targets[0]) == 'max_port' and U(n.value).startswith('max(') and 'output' in U(n.value)]
+    for n in oscans:
+        g = q.effective_guards(n, pf)
+        rr.ob("a filter's explicit outputs are scanned when it has outputs", has(g, 'outputs := split_commas_maybe(config.outputs)', True), cmod, n, witness=str(g)[:200], key='oscan-has-outputs')
+        rr.ob("... and all of them are message-queue addresses", has(g, 'any((not is_mq_addr(output) for output in outputs))', False), cmod, n, witness=str(g)[:200], key='oscan-all-mq')
+    rewrites = [n for n in walk_scope(pf) if isinstance(n, ast.Assign) and any(isinstance(t, ast.Subscript) and U(t.value) == 'sources' for t in n.targets)]
+    for n in rewrites:
+        g = q.effective_guards(n, pf)
+        rr.ob('the rewrite loop runs for a filter that has sources', has(g, 'sources := split_commas_maybe(config.sources)', True), cmod, n, witness=str(g)[:200], key='rewrite-has-sources')
+    if rewrites:
+        from ..model import ancestors as _anc
+        outer = [a for a in _anc(rewrites[0]) if isinstance(a, ast.For)][-1]
+        back = [n for n in outer.body if isinstance(n, ast.Assign) and U(n.targets[0]) == 'config.sources' and 'join(sources)' in U(n.value).replace(' ', '')]
+        rr.ob('the rewritten sources are written back into the configuration of the filter, once per filter, after its sources were walked', len(back) == 1 and not q.effective_guards(back[0], outer)[:0] and
+              back[0].lineno > rewrites[-1].lineno, cmod, back[0] if back else outer, witness=U(back[0])[:80] if back else 'no `config.sources = ", ".join(sources)` in the loop over the filters', key='rewrite-written-back')
